@@ -105,6 +105,8 @@ func (in *Interp) resetPath() {
 	in.allocs = nil
 	in.loopCount = nil
 	in.opaqueSeq = 0
+	in.cryptoSeq = 0
+	in.der = nil
 	in.allocLimit = nil
 	in.writeMark = 0
 	in.foreignWrites = nil
